@@ -40,6 +40,7 @@ var ctx = context.Background()
 func noPanic(what string, f func()) (err error) {
 	defer func() {
 		if r := recover(); r != nil {
+			lib.RethrowRapid(r) // draws happen inside f
 			err = fmt.Errorf("%s panicked: %v", what, r)
 		}
 	}()
@@ -366,7 +367,7 @@ func TestFanSpeedConsistency(t *testing.T) {
 		}
 		n := rapid.IntRange(1, 12).Draw(t, "steps")
 		for i := 0; i < n; i++ {
-			kind := rapid.SampledFrom([]string{"preset", "index", "pct", "pct-of-preset", "unknown-preset", "masked-pct", "masked-index", "relative-pct", "relative-index"}).Draw(t, "kind")
+			kind := rapid.SampledFrom([]string{"preset", "index", "pct", "pct-of-preset", "unknown-preset", "masked-pct", "masked-index", "relative-pct", "relative-index", "pct-near-preset", "relative-fraction"}).Draw(t, "kind")
 			var err error
 			before := proto.Clone(m.FanSpeed())
 			perr := noPanic("UpdateFanSpeed/"+kind, func() {
@@ -382,6 +383,32 @@ func TestFanSpeedConsistency(t *testing.T) {
 				case "pct-of-preset":
 					partial = true
 					_, err = m.UpdateFanSpeed(&traits.FanSpeed{Percentage: presets[rapid.IntRange(0, np-1).Draw(t, "pp")].Percentage})
+				case "pct-near-preset":
+					// a reading that is almost, but not, a preset's percentage (sensor noise, accumulated float32 steps)
+					partial = true
+					base := presets[rapid.IntRange(0, np-1).Draw(t, "np")].Percentage
+					var near float32
+					switch rapid.IntRange(0, 4).Draw(t, "nearKind") {
+					case 0:
+						near = math.Nextafter32(base, 1000)
+					case 1:
+						near = math.Nextafter32(base, -1000)
+					case 2:
+						near = base + 5e-5
+					case 3:
+						near = base - 5e-5
+					default:
+						near = base + 0.004
+					}
+					_, err = m.UpdateFanSpeed(&traits.FanSpeed{Percentage: near})
+				case "relative-fraction":
+					partial = true
+					for k := rapid.IntRange(1, 40).Draw(t, "reps"); k > 0 && err == nil; k-- {
+						_, err = srv.UpdateFanSpeed(ctx, &traits.UpdateFanSpeedRequest{Name: "n", Relative: true, FanSpeed: &traits.FanSpeed{Percentage: 0.1}})
+						if err == nil {
+							check("relative +0.1")
+						}
+					}
 				case "unknown-preset":
 					_, err = m.UpdateFanSpeed(&traits.FanSpeed{Preset: "nope"})
 					if status.Code(err) != codes.InvalidArgument {
